@@ -29,6 +29,16 @@ RULES = {
     "R-GROUP-CONSTS": ("rules.arith", "r_group_consts"),
     "R-HASH-TAINT": ("rules.arith", "r_hash_taint"),
     "R-INDEX-BOUNDED": ("rules.arith", "r_index_bounded"),
+    "R-SET-DELEGATION": ("rules.derived", "r_set_delegation"),
+    "R-SET-EQUIV-ASSERT": ("rules.derived", "r_set_equiv_assert"),
+    "R-EQ-LEN": ("rules.derived", "r_eq_len"),
+    "R-CLONE-SHAPE": ("rules.derived", "r_clone_shape"),
+    "R-KEEP-KEY": ("rules.derived", "r_keep_key"),
+    "R-HASH-SOURCE": ("rules.derived", "r_hash_source"),
+    "R-PAR-LINEAR": ("rules.derived", "r_par_linear"),
+    "R-SPLIT-ABUT": ("rules.derived", "r_split_abut"),
+    "R-PAR-DELEGATION": ("rules.derived", "r_par_delegation"),
+    "R-SERDE": ("rules.derived", "r_serde"),
     "R-ACCT": ("rules.acct", "r_acct"),
     "R-CTRL-WRITE": ("rules.acct", "r_ctrl_write"),
     "R-ERASE-BEFORE": ("rules.ownership", "r_erase_before"),
@@ -53,7 +63,13 @@ RULES = {
 }
 
 # rules that only exist when a feature is compiled in: rule -> configs where it is evaluated
-RULE_CONFIGS = {}
+RAYON_CFGS = ("all", "all-generic", "rayon", "all-release-shape")
+SERDE_CFGS = ("all", "all-generic", "serde", "all-release-shape")
+RULE_CONFIGS = {
+    "R-PAR-LINEAR": RAYON_CFGS, "R-SPLIT-ABUT": RAYON_CFGS, "R-PAR-DELEGATION": RAYON_CFGS,
+    "R-SERDE": SERDE_CFGS,
+}
+# properties whose code only exists with a feature: quick tier must include a config that has it (all)
 
 PROPS = {
     "C04": {
@@ -189,6 +205,39 @@ PROPS["C06"] = {
     "decided": "find_or_find_insert_slot reserves before searching (R-RESERVE-FIRST); the slot of a VacantEntry is consumed before any other mutation and insert_in_slot re-reads the slot's control byte (R-SLOT-FRESH); iter_hash stops exactly where find stops: on EMPTY, never on a tombstone (R-PROBE-STOP); "
                "tombstone reuse by insert_unique costs no capacity (R-ACCT); mirrored control bytes (R-CTRL-WRITE); HashTable::get_many_mut goes through the checked path (R-MANYMUT); the seven table iterators forward to the raw cursor (R-FORWARD)",
     "not_decided": "the multiset equality and iter_hash completeness (runtime); is_in_same_group's arithmetic",
+}
+
+PROPS["C07"] = {
+    "rules": ["R-SET-DELEGATION", "R-SET-EQUIV-ASSERT", "R-KEEP-KEY", "R-SLOT-FRESH", "R-EQ-LEN", "R-PROBE-STOP", "R-HASH-SOURCE"],
+    "level": "other",
+    "decided": "the operator forms |, &, ^, - call union/intersection/symmetric_difference/difference with (self, rhs) in that order, is_superset swaps its operands, symmetric_difference chains both differences, the filtering iterators probe the other operand, "
+               "and the basic operations forward to the map (R-SET-DELEGATION: 'agree with them' by construction); get_or_insert_with stores only after the equivalence assertion succeeded (R-SET-EQUIV-ASSERT); replace stores the new value, get_or_insert keeps the old (R-KEEP-KEY); "
+               "^= consumes its slot before any other mutation (R-SLOT-FRESH); == compares lengths with == and looks up through the other set's hasher (R-EQ-LEN); insert-or-find never stops at a tombstone (R-PROBE-STOP)",
+    "not_decided": "that the iterators yield the mathematical result with each element once (runtime); the assigning forms |=, &=, -= are independent implementations whose results are not decided",
+}
+
+PROPS["C11"] = {
+    "rules": ["R-CLONE-SHAPE", "R-CTRL-WRITE", "R-WINDOW", "R-ACCT", "R-LINEAR-INNER", "R-SINGLETON-GUARD", "R-EQ-LEN", "R-LINK", "R-FIELD-IMMUT", "R-BULKDROP-GUARD"],
+    "level": "other",
+    "decided": "each slot of a clone is written with a T::clone result and control bytes are copied over the whole range (R-CLONE-SHAPE, R-CTRL-WRITE); clone_from re-allocates with the source's bucket count exactly when the bucket counts differ (R-CLONE-SHAPE) and frees/keeps the old block correctly on each of its paths "
+               "(R-LINEAR-INNER, R-SINGLETON-GUARD, R-FIELD-IMMUT, R-BULKDROP-GUARD); counts are copied after the last clone (R-ACCT, R-WINDOW); table and hasher of a map/set are never left mismatched (R-LINK); == tests len() equality with ==/!= and looks up through the other collection's own hasher (R-EQ-LEN: symmetry, independence of layout/capacity/hasher state)",
+    "not_decided": "equality of contents after clone for particular histories (runtime)",
+}
+
+PROPS["C19"] = {
+    "rules": ["R-PAR-LINEAR", "R-SPLIT-ABUT", "R-DRAIN-PROTOCOL", "R-PAR-DELEGATION", "R-DUP-FORGET", "R-OWNING-ITER", "R-SINGLETON-GUARD", "R-AUTO", "R-MUT-FROM-MUT", "R-DROPGLUE"],
+    "level": "other",
+    "decided": "(feature rayon, never built by the baseline) a drain leaf iterates its cursor in place and forgets itself only after exhaustion, Drop walks the same cursor (R-PAR-LINEAR, R-OWNING-ITER); split forgets the original after duplicating the cursor (R-DUP-FORGET) and head end / tail start are one group-aligned value (R-SPLIT-ABUT); "
+               "par_drain installs its clear guard before bridging (R-DRAIN-PROTOCOL); into_par_iter frees only a real allocation (R-SINGLETON-GUARD); par_extend/par_eq/set predicates reach their sequential counterparts and the parallel set operations probe the other operand (R-PAR-DELEGATION); Send/Sync and exclusivity of the rayon types (R-AUTO, R-MUT-FROM-MUT)",
+    "not_decided": "exactly-once delivery under all split trees and schedules (runtime)",
+}
+
+PROPS["C20"] = {
+    "rules": ["R-SERDE", "R-KEEP-KEY"],
+    "level": "other",
+    "decided": "(feature serde, never built by the baseline) every capacity reserved before reading depends on the claimed length only through size_hint::cautious = min(hint, C <= 4096) (taint); the visitors add elements with HashMap::insert / HashSet::insert, whose overwrite keeps the last value (R-KEEP-KEY); "
+               "deserialize_in_place clears first; Serialize hands the collection itself to collect_map/collect_seq; no forget/ManuallyDrop in the module, so an error drops the partly built collection normally",
+    "not_decided": "round-trip equality (runtime)",
 }
 
 NOT_APPLICABLE = {
